@@ -362,14 +362,22 @@ func (g *gen) genFunc(typ *types.Signature) error {
 		p.P("}")
 		p.Out()
 		p.P("}")
-		p.P("%s := f(%s)", strings.Join(resVars, ", "), strings.Join(paramVars, ", "))
-		if len(resTypes) == 1 {
+		if len(resTypes) == 0 {
+			p.P("f(%s)", strings.Join(paramVars, ", "))
+			if len(paramTypes) == 1 {
+				p.P("m[h] = append(m[h], mem{%s})", paramVars[0])
+			} else {
+				p.P("m[h] = append(m[h], mem{in})")
+			}
+		} else if len(resTypes) == 1 {
+			p.P("%s := f(%s)", strings.Join(resVars, ", "), strings.Join(paramVars, ", "))
 			if len(paramTypes) == 1 {
 				p.P("m[h] = append(m[h], mem{%s, %s})", paramVars[0], resVars[0])
 			} else {
 				p.P("m[h] = append(m[h], mem{in, %s})", resVars[0])
 			}
 		} else {
+			p.P("%s := f(%s)", strings.Join(resVars, ", "), strings.Join(paramVars, ", "))
 			if len(paramTypes) == 1 {
 				p.P("m[h] = append(m[h], mem{%s, output{%s}})", paramVars[0], strings.Join(resVars, ", "))
 			} else {
